@@ -21,7 +21,8 @@ EXPLANATION = (
     "waiting[0] is True at every registration, False at the suspending return, re-armed before the back edge, and every return "
     "has either fired the result or left a resumer. The only other cycle allowed is the nested generator/coroutine edge through "
     "_cancellableInlineCallbacks under the iscoroutine/isgenerator guard (depth = static nesting, not number of awaits). "
-    "(c) Deferred.__iter__/__await__ call nothing inside the module. Not decided: stack used by user code; chainDeferred chains."
+    "(c) Deferred.__iter__/__await__ call nothing inside the module. (d) No function in the resolved-call closure of either engine can "
+    "reach itself, directly or mutually (a recursion there walks _chainedTo/callbacks links, i.e. the chain length). Not decided: stack used by user code; chainDeferred chains."
 )
 ASSUMPTIONS = [
     "method calls on arbitrary receivers are resolved by name against Deferred and its in-module subclasses (over-approximation)",
@@ -55,6 +56,8 @@ def check(ctx):
                           f"the chain loop calls {s.target}, which runs callbacks again ({how}): one stack frame per chained Deferred",
                           detail=f"{s.kind} -> {s.target}")
         ctx.floor("no-reentry/run-callbacks", nsites, 1)
+    with group(ctx, "no-recursion"):
+        _check_no_recursion(ctx, cg)
     S = None
     with group(ctx, "run-callbacks/shape"):
         S = RunShape(ctx)
@@ -102,6 +105,51 @@ def check(ctx):
             ctx.check(not any(isinstance(x, ast.YieldFrom) for x in ast.walk(fn)) and
                       all(is_name(x.value, "self") for x in ast.walk(fn) if isinstance(x, ast.Yield)), "await/yields-itself", Q + nm,
                       "awaiting does not simply yield the Deferred to the driver (delegation would nest one frame per await)")
+
+
+def _check_no_recursion(ctx, cg):
+    """No function in the resolved-call closure of the two engines may reach itself (directly or mutually): such a recursion
+    walks a structure whose size is the chain length (_chainedTo links, callbacks, the chain stack), so its depth grows with it.
+    Only *call* edges count (a function merely passed as an argument is invoked later by the chain loop, which is the opaque
+    call-out); the two cycles through _inlineCallbacks that are decided elsewhere (registration edge under the waiting cell,
+    nested generator under the iscoroutine/isgenerator guard) are cut at their edge into _inlineCallbacks."""
+    is_call = lambda s: s.kind != "call"           # skip predicate: drop reference edges
+    roots = [RUN, IC] + sorted(t for s in cg.sites.get(IC, []) if s.kind == "ref" for t in [s.target] if t in cg.reaching(IC))
+    closure = set()
+    for r in roots:
+        closure |= cg.reach_from(r, skip=is_call)
+    allowed_into_ic = {"_cancellableInlineCallbacks"} | {r for r in roots if r not in (RUN, IC)}
+
+    def skip(s):
+        return s.kind != "call" or (s.target == IC and s.func in allowed_into_ic)
+    n = 0
+    for fn in sorted(closure):
+        cyc_sites = [s for s in cg.sites.get(fn, []) if not skip(s) and s.target in closure and
+                     (s.target == fn or fn in cg.reach_from(s.target, skip=skip))]
+        n += 1
+        if not cyc_sites:
+            ctx.ok("no-recursion/closure", Q + fn, "cannot reach itself through resolved calls")
+        for s in cyc_sites:
+            chain = cg.chain_to(s.target, fn, skip=skip) or [s.target]
+            ctx.check(False, "no-recursion/closure", ctx.construct(Q + fn, s.node),
+                      f"{fn} can re-enter itself ({' -> '.join([fn] + chain)}) and is reachable from the chain / generator engine: the recursion "
+                      "follows links between Deferreds (e.g. _chainedTo), so its depth grows with the chain length and ends in RecursionError "
+                      "for long chains")
+        # note (not a violation): a call made once per loop iteration to a function that itself loops is quadratic in the chain length
+        f = cg.funcs[fn]
+        for s in cg.sites.get(fn, []):
+            if s.kind == "call" and s.target in closure and _in_loop(s.node, f) and any(isinstance(x, (ast.While, ast.For)) for x in ast.walk(cg.funcs[s.target])):
+                ctx.note(f"{fn}: `{s.text[:60]}` is called inside a loop and {s.target} loops itself (possibly quadratic in the chain length)")
+    ctx.floor("no-recursion/closure", n, 4)
+
+
+def _in_loop(node, func) -> bool:
+    p = getattr(node, "_parent", None)
+    while p is not None and p is not func:
+        if isinstance(p, (ast.While, ast.For, ast.AsyncFor)):
+            return True
+        p = getattr(p, "_parent", None)
+    return False
 
 
 def _check_run_calls(ctx, cg, S, back):
@@ -361,6 +409,15 @@ MUTANTS = [
            more=[(D, "                    chainee.paused -= 1\n                    chain.append(chainee)\n", "                    chainee.paused -= 1\n                    chainee._runCallbacks()\n"),
                  (D, "                chain.pop()\n", "                pass\n")],
            expect_rule="iterative/loop-over-chain-stack"),
+    Mutant("self-return-check-follows-chain-recursively", D, "                        if current.result is current:\n",
+           "                        if current.result is current or (type(current.result) in _DEFERRED_SUBCLASSES and current.result._dependsOn(current)):\n",
+           more=[(D, "    def _runCallbacks(self) -> None:\n        \"\"\"\n        Run the chain of callbacks once a result is available.\n",
+                  "    def _dependsOn(self, other):\n        nxt = self._chainedTo\n        if nxt is None:\n            return False\n        return nxt is other or nxt._dependsOn(other)\n\n"
+                  "    def _runCallbacks(self) -> None:\n        \"\"\"\n        Run the chain of callbacks once a result is available.\n")],
+           expect_rule="no-recursion/closure"),
+    Mutant("mutual-recursion-behind-pause", D, "    def pause(self) -> None:\n        \"\"\"\n        Stop processing on a L{Deferred} until L{unpause}() is called.\n        \"\"\"\n        self.paused += 1\n",
+           "    def pause(self) -> None:\n        self.paused += 1\n        self._notePause()\n\n    def _notePause(self) -> None:\n        if self._chainedTo is not None:\n            self._chainedTo._markWaiter()\n\n    def _markWaiter(self) -> None:\n        self._notePause()\n",
+           expect_rule="no-recursion/closure"),
 ]
 SILENT = [
     Silent("rename-helper-params", D, "    if waiting[0]:\n        waiting[0] = False\n        waiting[1] = r\n    else:\n        _inlineCallbacks(r, gen, status, context)\n",
@@ -378,4 +435,9 @@ SILENT = [
     Silent("send-without-context", D, "                result = context.run(gen.send, result)\n", "                result = gen.send(result)\n"),
     Silent("registration-by-keywords", D, "result.addBoth(_gotResultInlineCallbacks, waiting, gen, status, context)",
            "result.addCallbacks(callback=_gotResultInlineCallbacks, errback=_gotResultInlineCallbacks, callbackArgs=(waiting, gen, status, context), errbackArgs=(waiting, gen, status, context))"),
+    Silent("self-return-check-follows-chain-iteratively", D, "                        if current.result is current:\n",
+           "                        if current.result is current or (type(current.result) in _DEFERRED_SUBCLASSES and current.result._dependsOn(current)):\n",
+           more=[(D, "    def _runCallbacks(self) -> None:\n        \"\"\"\n        Run the chain of callbacks once a result is available.\n",
+                  "    def _dependsOn(self, other):\n        d = self._chainedTo\n        while d is not None:\n            if d is other:\n                return True\n            d = d._chainedTo\n        return False\n\n"
+                  "    def _runCallbacks(self) -> None:\n        \"\"\"\n        Run the chain of callbacks once a result is available.\n")]),
 ]
